@@ -9,6 +9,9 @@ CHECKS = {
  "C01": ("exploration", "A", "deterministic simulation: seeded worlds/configs, real binary under libc seam with short reads, delays, knob overrides; direct byte-comparison oracle",
          "Seeded exploration of (world x configuration x I/O schedule); every reported group is re-checked by direct byte comparison (transform: same command run by the driver). Evidence, not proof; hash collisions excluded.",
          "trusts the driver's own file reads and coreutils; thread interleavings steered, not enumerated", "4/C01"),
+ "C02": ("exploration", "A", "deterministic simulation: two real processes linked by a real report on a simulated clock; inventory oracle before/after",
+         "Seeded (world x group options x report format x operation x dedupe options); oracle: content conservation, max(1,n) untouched replicas per group (documented replica rule), unlisted paths untouched, original paths read back, moved bytes at the mapped target.",
+         "replica rule re-implemented from the documentation; FICLONE is a stub; schedules steered not enumerated", "4/C02"),
  "C03": ("exploration", "A", "deterministic simulation: real binary under libc seam vs executable reference partition model",
          "Report of the real binary must equal the reference partition (content classes filtered by the documented replica rule) for every sampled world/config/fault mode.",
          "selection restricted to unambiguous cases (C09 decides selection); reference model written from the documentation", "4/C03"),
